@@ -1,6 +1,12 @@
 """Registry of claimed checks (drives tools/mkmanifest.py)."""
 
 REGISTRY = {
+    "C02": {
+        "text": "Recursion of 36 shapes (direct, mutual, methods, constructors, every callback-taking built-in, accessors, conversions, call/apply/bind, eval) under memory limits from 5 kB to 10 MB must end in MemoryLimitError while a hook tracks the accounted usage (never above M), call depth and host recursion depth. Bounded bodies - the exhaustive control-flow skeleton grid (construct x exit kind x enclosing construct x expression context, inside a function and inline) - run N times with a marker each iteration whose Python side reads the live VM: operand-stack, call-stack, handler-stack and native depth must be identical at every iteration and back to empty after the loop; N up to 1000 (quick) / 30000 (thorough) under M = 20 kB must succeed; an icontract postcondition on VM.run checks all stacks empty on return.",
+        "design_ref": "DESIGN.md 3/C02",
+        "note": "Heap data is not accounted by the engine (documented) and not judged. Trusts Context._current_vm to be the VM executing the marker call.",
+        "technique": "invariant-at-a-hook monitors on live VM stacks (residue series at loop iterations, accounted usage vs limit) + outcome oracle + icontract postcondition on VM.run",
+    },
     "C05": {
         "text": "An exhaustive skeleton grid {enclosing construct (18 kinds incl. none)} x {construct (loops, for-in/of, switch with default in every position, labelled block, every try/catch/finally shape, code in catch and in finally)} x {exit kind: fall out, break, continue, labelled break/continue, return, throw from statement/mid-expression/callee/callback} x {expression context of the call: statement, operand, argument, array element, property value, condition, callee} plus closure-sharing, evaluation-order and completion-value probes and seeded random programs are run on the real engine; ordered log (every operand position logs a unique id), completion value and uncaught error are compared with node. Held = agreement on what was run; exploration over a bounded program space.",
         "design_ref": "DESIGN.md 3/C05",
